@@ -73,6 +73,10 @@ def show_term(t):
         return t[1]
     if k == 'max0':
         return f'max0({show_frozen(t[1])})'
+    if k in ('ceil', 'floor', 'int'):
+        return f'{k}({show_frozen(t[1])})'
+    if k == 'ftax':
+        return f'tax({show_frozen(t[1])})'
     if k in ('min', 'max'):
         return f'{k}(' + ', '.join(sorted(show_frozen(x) for x in t[1])) + ')'
     if k == 'prod':
@@ -137,6 +141,11 @@ def lin_of(e, zero_atoms=frozenset(), subst=None):
             return lin_of(e.args[1], zero_atoms, subst)
         if name == 'int':
             return Lin(0, {('int', lin_of(e.args[1], zero_atoms, subst).freeze()): 1})
+        if isinstance(name, str) and name.endswith(':figure_tax') and len(e.args) >= 2:
+            # the tax function: kept with its argument so that monotonicity in the amount can be used (C07 decides the function itself)
+            return Lin(0, {('ftax', lin_of(e.args[1], zero_atoms, subst).freeze(), repr(e.args[2:])): 1})
+        if name in ('ceil', 'floor') and len(e.args) == 2:
+            return Lin(0, {(name, lin_of(e.args[1], zero_atoms, subst).freeze()): 1})
         return Lin(0, {('op', e.key()): 1})
     if op in ('min', 'max'):
         parts = []
